@@ -143,6 +143,15 @@ def chain_bodies(kind, tns):
                     env = M.S11 if kind == 'soap11' else M.S12
                     inner = '<e:Envelope xmlns:e="%s"><e:Body>%s</e:Body></e:Envelope>' % (env, inner)
                 out.append(('deep_chain:%s:%d' % (member, d), inner.encode()))
+    if kind in ('soap11', 'soap12'):
+        # depth by reference: each value holds a reference to the next one, so the parser never sees more than two levels - the tree has
+        # as many once the references are resolved (padding attributes raise what resolving may add to the request)
+        env = M.S11 if kind == 'soap11' else M.S12
+        for hops, pad in ((100, 0), (300, 0), (500, 0), (500, 150000), (3000, 0), (1000, 300000)):
+            vals = ''.join('<t:Node id="i%d"><t:v>%d</t:v><t:next href="#i%d"/></t:Node>' % (i, i, i + 1) for i in range(hops)) + '<t:Node id="i%d"><t:v>0</t:v></t:Node>' % hops
+            padding = '<t:pad %s/>' % ' '.join('a%d=""' % i for i in range(pad)) if pad else ''
+            doc = ('<e:Envelope xmlns:e="%s" xmlns:t="%s"><e:Body><t:walk><t:n href="#i0"/></t:walk>%s%s</e:Body></e:Envelope>' % (env, tns, vals, padding))
+            out.append(('deep_chain_by_reference:%d:%d' % (hops, pad), doc.encode()))
     if kind == 'yaml':
         out.append(('recursive_alias', b'walk:\n  n: &a\n    v: 1\n    next: *a\n'))
         out.append(('recursive_alias_kids', b'walk:\n  n: &a\n    v: 1\n    kids: [*a, *a]\n'))
